@@ -86,8 +86,8 @@ func poolObligations(c *Checker, pfx string) {
 				// header state
 				hdr, _ := o.St.mem[objByName(o, b.obj())].(StructV)
 				var data SliceV
-				if fi != nil && len(hdr.F) >= 3 {
-					data, _ = hdr.F[fi.data].(SliceV)
+				if fi != nil && len(hdr.F) >= 2 {
+					data, _ = fi.at(hdr, fi.data).(SliceV)
 				}
 				wantLen := specMul(chn, ln)
 				okLen := data.Stor != nil && data.Stor.Name == b.stor() && eqInt(data.Off, zeroT()) && eqInt(data.Len, wantLen)
@@ -111,7 +111,7 @@ func poolObligations(c *Checker, pfx string) {
 						}
 						other = append(other, e)
 					case EStoreField, ESetCap:
-						if e.Obj.Name != b.obj() || fi == nil || len(e.Path) != 1 || e.Path[0] != fi.data {
+						if e.Obj.Name != b.obj() || fi == nil || !pathEq(e.Path, fi.data) {
 							other = append(other, e)
 						}
 					default:
@@ -255,11 +255,11 @@ func poolObligations(c *Checker, pfx string) {
 						}
 						hdr, _ := o.St.mem[pv.Obj].(StructV)
 						fi := bufferFields(pv.Obj.Typ)
-						if fi == nil || len(hdr.F) < 3 {
+						if fi == nil || len(hdr.F) < 2 {
 							okN, d = false, "New does not return a Buffer"
 							break
 						}
-						dt, _ := hdr.F[fi.data].(SliceV)
+						dt, _ := fi.at(hdr, fi.data).(SliceV)
 						chn, ln, cp := mkAtom(fv+".Channels", intT), mkAtom(fv+".Length", intT), mkAtom(fv+".Capacity", intT)
 						if dt.Stor == nil || dt.Stor.Kind != SFresh || !eqInt(dt.Len, specMul(chn, ln)) || !eqInt(dt.Cap, specMul(chn, cp)) {
 							okN, d = false, "New's buffer is not Alloc(captured allocator): "+valString(dt)
@@ -438,13 +438,13 @@ func checkC12(c *Checker) {
 						okV1, d1 = false, "unresolved header field at "+c.effPos(e)
 						continue
 					}
-					if e.Path[0] != fi.data {
+					if !pathEq(e.Path, fi.data) {
 						okV1, d1 = false, fmt.Sprintf("channels/bitDepth of an existing buffer is written at %s", c.effPos(e))
 						continue
 					}
 					if e.Kind == EStoreField {
 						nv, isS := e.Val.(SliceV)
-						own := strings.TrimPrefix(e.Obj.Name, "*") + ".data"
+						own := strings.TrimPrefix(e.Obj.Name, "*") + hdrLayout.dataSuffix()
 						if !isS || nv.Stor == nil || !derivedFrom(nv.Stor, own) {
 							okV2, d2 = false, fmt.Sprintf("data of %s is replaced by a slice not derived from its own data: %s at %s", e.Obj.Name, valString(e.Val), c.effPos(e))
 						}
@@ -457,7 +457,7 @@ func checkC12(c *Checker) {
 					case st == nil:
 					case st.Kind == SFresh || st.Kind == SGrown || st.Kind == SArrayObj:
 						okStor = true
-					case strings.HasSuffix(st.Name, ".data"):
+					case strings.HasSuffix(st.Name, hdrLayout.dataSuffix()):
 						okStor = true
 					default:
 						// caller-supplied destination slice (Read / ReadStriped)
@@ -605,7 +605,7 @@ func derivedFrom(s *Storage, own string) bool {
 func leaksData(v Val) bool {
 	switch x := v.(type) {
 	case SliceV:
-		return x.Stor != nil && (strings.HasSuffix(x.Stor.Name, ".data") || (x.Stor.Kind == SGrown))
+		return x.Stor != nil && (strings.HasSuffix(x.Stor.Name, hdrLayout.dataSuffix()) || (x.Stor.Kind == SGrown))
 	case IfaceV:
 		return x.Dyn != nil && leaksData(x.Dyn)
 	case StructV:
@@ -670,6 +670,7 @@ func positiveChannels(fn *ssa.Function, f *Facts) *Facts {
 			continue
 		}
 		ch := normInt(buf{p.Name()}.ch())
+		out.add(Cond{Kind: CGE0, P: ch})
 		if f.eval(Cond{Kind: CNE0, P: normSign(ch)}) == Yes {
 			out.add(Cond{Kind: CGE0, P: ch.AddInt(-1)})
 		}
